@@ -152,7 +152,14 @@ func ReadEnvFile(filename string) (map[string]string, error) {
 	envs := make(map[string]string)
 	envscanner := bufio.NewScanner(f)
 	for envscanner.Scan() {
-		kv := strings.Split(envscanner.Text(), "=")
+		line := envscanner.Text()
+		if strings.TrimSpace(line) == "" {
+			continue
+		}
+		kv := strings.SplitN(line, "=", 2)
+		if len(kv) != 2 {
+			return nil, fmt.Errorf("%s: line %q is not in k=v format", filename, line)
+		}
 		envs[kv[0]] = kv[1]
 	}
 
